@@ -112,6 +112,10 @@ func (g *c17Grain) OnReceive(ctx *GrainContext) {
 	ctx.NoErr()
 }
 func (g *c17Grain) OnDeactivate(context.Context, *GrainProps) error {
+	if g.id%2 == 1 {
+		// odd grains are slow to deactivate: Stop has to wait for them
+		time.Sleep(25 * time.Millisecond)
+	}
 	g.w.nDeact[g.id].Add(1)
 	g.w.log(g.who(), "deact", nil)
 	return nil
@@ -277,9 +281,28 @@ func c17RunScenario(t *testing.T, idx int, sc c17Scenario) c17Out {
 				if err := sys.TellGrain(ctx, w.idents[g], &PoisonPill{}); err != nil {
 					flag = 1
 				} else {
-					c06WaitForC17(func() bool { return w.nDeact[g].Load() > before }, time.Second)
+					c06WaitForC17(func() bool { return w.nDeact[g].Load() > before }, 5*time.Second)
 					active[g] = false
 				}
+			}
+		case "grain_pill2":
+			// two PoisonPills delivered back to back (the way poisonAllGrains delivers one): the grain's
+			// own receive path, so a deactivated grain is not re-activated by the second one
+			g := c17I(act[1])
+			if w.idents[g] == nil || !active[g] || stopped {
+				flag = 1
+			} else if gp, ok := sys.(*actorSystem).getGrains().Get(w.idents[g].String()); !ok {
+				flag = 1
+			} else {
+				before := w.nDeact[g].Load()
+				for i := 0; i < 2; i++ {
+					gctx := getGrainContext()
+					gctx.build(ctx, gp, sys, gp.getIdentity(), new(PoisonPill), grainTell)
+					gp.receive(gctx)
+				}
+				c06WaitForC17(func() bool { return w.nDeact[g].Load() > before }, 5*time.Second)
+				time.Sleep(5 * time.Millisecond)
+				active[g] = false
 			}
 		case "tell", "tell_hold":
 			a := c17I(act[1])
@@ -300,7 +323,7 @@ func c17RunScenario(t *testing.T, idx int, sc c17Scenario) c17Out {
 					flag = 0
 				}
 				if kind == "tell_hold" {
-					c06WaitForC17(func() bool { return w.inRecv[a].Load() > 0 }, time.Second)
+					c06WaitForC17(func() bool { return w.inRecv[a].Load() > 0 }, 5*time.Second)
 				} else {
 					time.Sleep(2 * time.Millisecond)
 				}
